@@ -23,6 +23,7 @@ import (
 	"strconv"
 	"strings"
 	"sync"
+	"sync/atomic"
 	"syscall"
 	"time"
 
@@ -56,19 +57,34 @@ func goid() string {
 	return "?"
 }
 
+// shared by the command loop and the request-level users (users.go)
+var (
+	childSayMu sync.Mutex
+	childOut   *bufio.Writer
+	childTidOf = map[string]int{}
+	childGate  = map[int]chan struct{}{}
+	childMu    sync.Mutex
+)
+
+func say(format string, a ...interface{}) {
+	childSayMu.Lock()
+	fmt.Fprintf(childOut, format+"\n", a...)
+	childOut.Flush()
+	childSayMu.Unlock()
+}
+
+// registerThread makes the calling goroutine schedule-controlled thread tid: it stops at every
+// append.* hook point until the controller sends `go tid`.
+func registerThread(tid int) {
+	childMu.Lock()
+	childTidOf[goid()] = tid
+	childMu.Unlock()
+}
+
 func childMain(file string) {
 	signal.Ignore(syscall.SIGXFSZ) // a write past RLIMIT_FSIZE returns EFBIG instead of killing the process
-	var mu sync.Mutex
-	out := bufio.NewWriter(os.Stdout)
-	say := func(format string, a ...interface{}) {
-		mu.Lock()
-		fmt.Fprintf(out, format+"\n", a...)
-		out.Flush()
-		mu.Unlock()
-	}
-	tidOf := map[string]int{}
-	gate := map[int]chan struct{}{}
-	var tmu sync.Mutex
+	childOut = bufio.NewWriter(os.Stdout)
+	tidOf, gate, tmu := childTidOf, childGate, &childMu
 
 	verifhook.SetOnPoint(func(name string) {
 		if !strings.HasPrefix(name, "append.") {
@@ -79,6 +95,12 @@ func childMain(file string) {
 		ch := gate[tid]
 		tmu.Unlock()
 		if !ok {
+			// not a controlled thread. In the mix run the appenders of this process take their time
+			// between reading the length and writing (a slow disk, a descheduled thread): the lock is
+			// what protects them. The pause only widens a window; nothing is decided by it.
+			if us := atomic.LoadInt64(&mixSleepUs); us > 0 && name == "append.afterSeek" {
+				time.Sleep(time.Duration(us) * time.Microsecond)
+			}
 			return
 		}
 		say("at %d %s", tid, strings.TrimPrefix(name, "append."))
@@ -218,6 +240,8 @@ func childMain(file string) {
 			say("stress-done")
 		case "quit":
 			return
+		default:
+			childUsers(f, file)
 		}
 	}
 }
@@ -249,12 +273,13 @@ type controller struct {
 	errs     []string
 	tries    []string // results of the try-lock calls, in schedule order
 	closed   bool
+	startCmd string // "start" (an AppendRecord call) or "hstart" (a header writer: ptt.WriteFile)
 }
 
 func newController(procs []int, file string, bin string) *controller {
 	c := &controller{procs: procs, children: map[int]*child{}, events: map[int]chan event{}, misc: make(chan string, 64),
 		file: file, state: make([]string, len(procs)), started: make([]bool, len(procs)),
-		blocked: make([]bool, len(procs)), done: make([]bool, len(procs))}
+		blocked: make([]bool, len(procs)), done: make([]bool, len(procs)), startCmd: "start"}
 	for t := range procs {
 		c.events[t] = make(chan event, 16)
 		c.state[t] = "start"
@@ -285,8 +310,9 @@ func newController(procs []int, file string, bin string) *controller {
 				}
 			}(p)
 		}
-		go func() {
+		go func(p int) {
 			sc := bufio.NewScanner(outp)
+			sc.Buffer(make([]byte, 1<<16), 1<<26)
 			for sc.Scan() {
 				f := strings.Fields(sc.Text())
 				if len(f) >= 3 && (f[0] == "at" || f[0] == "done") {
@@ -296,7 +322,12 @@ func newController(procs []int, file string, bin string) *controller {
 					c.misc <- sc.Text()
 				}
 			}
-		}()
+			// the process has closed its output (it quit, or it died): tell whoever is waiting for its answer
+			select {
+			case c.misc <- fmt.Sprintf("child-exit %d", p):
+			default:
+			}
+		}(p)
 	}
 	return c
 }
@@ -344,7 +375,7 @@ func (c *controller) release(t int) {
 	p := c.procs[t]
 	if !c.started[t] {
 		c.started[t] = true
-		c.send(p, "start %d", t)
+		c.send(p, c.startCmd+" %d", t)
 		if !c.await(t, 5*time.Second) {
 			c.errs = append(c.errs, fmt.Sprintf("thread %d never reached afterOpen", t))
 		}
@@ -411,6 +442,7 @@ func (c *controller) close() {
 		case <-done:
 		case <-time.After(2 * time.Second):
 			ch.cmd.Process.Kill()
+			<-done // Wait also ends the goroutine that copies the child's stderr
 		}
 	}
 }
@@ -745,7 +777,7 @@ func main() {
 	_ = mode
 	defer run.Finish()
 	bin, _ := os.Executable()
-	run.Rule = "every interleaving of the 5 hook-delimited segments (call, lockFD+flock, seekEnd, write, funlock+unlockFD) of 2 appender threads in one process (exhaustive) and of 2 processes x 1 thread (exhaustive in thorough, sampled in quick), 3 threads / 2x2 in thorough; after every release the observed thread states and file records are compared with the model replaying the same schedule prefix; distinct = distinct complete schedules"
+	run.Rule = "every interleaving of the 5 hook-delimited segments (call, lockFD+flock, seekEnd, write, funlock+unlockFD) of 2 appender threads in one process (exhaustive) and of 2 processes x 1 thread (exhaustive in thorough, sampled in quick), 3 threads / 2x2 in thorough; after every release the observed thread states and file records are compared with the model replaying the same schedule prefix; distinct = distinct complete schedules; request-level users of the same locks: header writers (ptt.WriteFile -> .post) held at each of the 4 hook points x 0..2 whole calls meanwhile (model-compared), N header writers released together, and commenters (ptt.Recommend / bbs.CreateComment) + appenders in one process with a second process appending to the same record files (judged by the property oracle)"
 
 	if run.Replay != "" {
 		for _, l := range hx.ReplayOps(run.Replay) {
@@ -754,6 +786,20 @@ func main() {
 				procs := parseInts(f[1])
 				n0, _ := strconv.Atoi(f[2])
 				runSchedule(bin, procs, n0, complete(parseInts(f[3]), len(procs)), true)
+			}
+			if len(f) == 4 && f[0] == "hdr" {
+				a := parseInts(f[1] + "," + f[2] + "," + f[3])
+				if a[1] >= 1 && a[1] <= 4 && a[2] <= 8 {
+					hdrCase(bin, a[0], a[1], a[2])
+				}
+			}
+			if len(f) == 3 && f[0] == "postlog" {
+				a := parseInts(f[1] + "," + f[2])
+				postlogStress(bin, a[0], a[1])
+			}
+			if len(f) == 5 && f[0] == "mix" {
+				a := parseInts(strings.Join(f[1:], ","))
+				mixRun(bin, a[0], a[1], a[2], a[3])
 			}
 		}
 		return
@@ -764,6 +810,14 @@ func main() {
 		stress(bin, true)
 		// a second evidence case so the pass reports >1 distinct observation
 		stress(bin, false)
+		// the request-level users of the lock table (commenters, header writers) under the detector
+		if run.Thorough() {
+			mixRun(bin, 2, 8, 8000, 200)
+			postlogStress(bin, 8, 60)
+		} else {
+			mixRun(bin, 2, 8, 2500, 200)
+			postlogStress(bin, 8, 20)
+		}
 		return
 	}
 	r := run.R
@@ -868,6 +922,30 @@ func main() {
 
 	// stress (no hooks): many goroutines in 2..4 processes append concurrently; P-hat on the final file.
 	stress(bin, run.Thorough())
+
+	// ---- the other users of the same locks, through the real request functions (users.go) ----
+	// header writers (ptt.WriteFile -> .post): every schedule-controlled case of one held writer x the
+	// point it is held at x 0..2 (3) whole calls meanwhile; then N writers released together
+	maxW := 2
+	if run.Thorough() {
+		maxW = 3
+	}
+	for _, n0 := range []int{0, 2} {
+		for hold := 1; hold <= 4; hold++ {
+			for nw := 0; nw <= maxW; nw++ {
+				hdrCase(bin, n0, hold, nw)
+			}
+		}
+	}
+	if run.Thorough() {
+		postlogStress(bin, 8, 600)
+		postlogStress(bin, 3, 600)
+		mixRun(bin, 4, 16, 25000, 200)
+		mixRun(bin, 4, 16, 10000, 0)
+	} else {
+		postlogStress(bin, 8, 150)
+		mixRun(bin, 4, 16, 7000, 200)
+	}
 }
 
 // complete pads a schedule so that every thread gets its 5 releases
@@ -921,7 +999,8 @@ func stress(bin string, thorough bool) {
 	results := map[int][]string{}
 	doneN := 0
 	deadline := time.After(60 * time.Second)
-	for doneN < nProc {
+	died := false
+	for doneN < nProc && !died {
 		select {
 		case l := <-c.misc:
 			f := strings.Fields(l)
@@ -930,18 +1009,24 @@ func stress(bin string, thorough bool) {
 				results[tid] = strings.Split(f[2], ",")
 			} else if l == "stress-done" {
 				doneN++
+			} else if strings.HasPrefix(l, "child-exit") {
+				died = true
 			}
 		case <-deadline:
-			i := run.Op(fmt.Sprintf("stress %d %d %d", nProc, nG, m), "TIMEOUT", "stress", false)
-			what := "stress run did not finish"
-			for p, ch := range c.children {
-				if e := ch.stderr.String(); strings.Contains(e, "fatal error") {
-					what += fmt.Sprintf("; process %d died: %s", p, strings.SplitN(e[strings.Index(e, "fatal error"):], "\n", 2)[0])
-				}
-			}
-			run.Fail(i, "stall", what)
-			return
+			died = true
 		}
+	}
+	if died {
+		i := run.Op(fmt.Sprintf("stress %d %d %d", nProc, nG, m), "TIMEOUT", "stress", false)
+		what := "stress run did not finish"
+		c.close()
+		for p, ch := range c.children {
+			if e := ch.stderr.String(); strings.Contains(e, "fatal error") {
+				what += fmt.Sprintf("; process %d died: %s", p, strings.SplitN(e[strings.Index(e, "fatal error"):], "\n", 2)[0])
+			}
+		}
+		run.Fail(i, "stall", what)
+		return
 	}
 	recs, problems := readRecs(file, 0)
 	rs := strings.Split(recs, ",")
